@@ -379,6 +379,13 @@ pub fn judge(ctx: &mut Ctx, input: &[u8], tag: &str) -> &'static str {
                 return "accept";
             }
             let hs = headers_of_ref(input, &a);
+            // The end-to-end run needs a tree that defines the received mnemonics. A *definition* containing `_`
+            // is outside SCPI shape (the library treats `_` in a definition as optional tail, so `A_` also matches
+            // a received `a1`); such headers are only compared at token level above.
+            if hs.iter().any(|h| h.2.iter().any(|m| m.contains(&b'_'))) {
+                ctx.count("end-to-end.skipped(underscore in a header mnemonic)");
+                return "accept";
+            }
             let tree = tree_for(&hs);
             let mut dev = Dev::new();
             let mut c = Context::default();
@@ -488,10 +495,11 @@ pub fn gen_mnemonic(rng: &mut Rng) -> Vec<u8> {
         1 => 1,
         _ => 1 + rng.usize(8),
     };
-    const AL: &[u8] = b"ABCDEFGHIJKLMNOPQRSTUVWXYZabcdefghijklmnopqrstuvwxyz0123456789_";
+    const AL: &[u8] = b"ABCDEFGHIJKLMNOPQRSTUVWXYZabcdefghijklmnopqrstuvwxyz0123456789";
     let mut v = vec![if rng.bool() { b'A' + rng.usize(26) as u8 } else { b'a' + rng.usize(26) as u8 }];
     for _ in 1..n {
-        v.push(*rng.pick(AL));
+        // `_` is legal but rare (headers containing it are only compared at token level, see judge())
+        v.push(if rng.chance(1, 120) { b'_' } else { *rng.pick(AL) });
     }
     v
 }
